@@ -797,7 +797,9 @@ func (i *IRCServer) TrustedBridge(authHeader string) string {
 func (i *IRCServer) captchaConfigured() bool {
 	i.ConfigMu.RLock()
 	defer i.ConfigMu.RUnlock()
-	return i.Config.CaptchaURL != "" && i.Config.CaptchaHMACSecret != nil
+	// len(), not != nil: a state loaded from a snapshot holds an empty
+	// (non-nil) secret where the configuration had none.
+	return i.Config.CaptchaURL != "" && len(i.Config.CaptchaHMACSecret) > 0
 }
 
 func (i *IRCServer) captchaRequiredForLogin() bool {
